@@ -474,6 +474,7 @@ pub async fn run_case(case: Vec<String>) -> String {
                         lg.lock().push((next_seq(), now_ms(start), format!("send-error:{:?}", e).replace(' ', "_")));
                         return;
                     }
+                    let mut errors = 0;
                     loop {
                         match init.receive().await {
                             Ok(Response::Provisional(r)) => lg.lock().push((next_seq(), now_ms(start), format!("provisional:{}", r.line.code.into_u16()))),
@@ -493,8 +494,13 @@ pub async fn run_case(case: Vec<String>) -> String {
                                 break;
                             }
                             Err(e) => {
+                                // a response the caller cannot use (e.g. a tagged 1xx without Contact) is reported as an error; the
+                                // INVITE transaction is still running, so the application goes on receiving
                                 lg.lock().push((next_seq(), now_ms(start), format!("initiator-error:{:?}", e).replace(' ', "_")));
-                                break;
+                                errors += 1;
+                                if errors > 20 || matches!(e, sip_core::Error::RequestTimedOut) {
+                                    break;
+                                }
                             }
                         }
                     }
